@@ -203,11 +203,15 @@ func (c asyncCfg) run(o *asyncObs) {
 			for s, op := range ops {
 				id := idName(idCode(p, s))
 				switch asyncOp(op) {
-				case 'E', 'D', 'F':
+				case 'E', 'D', 'F', 'N':
 					e := log.GetEvent()
 					e.Level = log.WarnLevel
 					if op == 'F' {
 						e.Level = log.ErrorLevel
+					}
+					if op == 'N' {
+						// a level the application registers AFTER the logger was started (code inside the logger's range)
+						e.Level = log.RegisterLevel(int32(450+p), fmt.Sprintf("late%d", p))
 					}
 					o.levels[id] = e.Level
 					if op == 'D' {
@@ -580,6 +584,14 @@ func init() {
 		reg("C01", asyncCfg{policy: pol, prefill: 99, gate: "tokens5", refLevels: rl, producers: []string{"EF", "FE"}}, "qt", 2, 3)
 		reg("C01", asyncCfg{policy: pol, prefill: 100, gate: "tokens5", refLevels: rl, producers: []string{"EFE", "F"}}, "qt", 2, 3)
 		reg("C01", asyncCfg{policy: pol, prefill: 98, gate: "tokens5", layout: true, refLevels: rl, producers: []string{"EF", "FE"}}, "qt", 2, 3)
+	}
+	// events at levels that did not exist when the logger was started (registered later by the application)
+	for _, pol := range pols {
+		for _, prop := range []string{"C04", "C06"} {
+			reg(prop, asyncCfg{policy: pol, prefill: 0, producers: []string{"NW", "EN"}}, "qt", 2, 3)
+			reg(prop, asyncCfg{policy: pol, prefill: 99, gate: "tokens5", producers: []string{"NE", "WN"}}, "qt", 2, 3)
+		}
+		reg("C01", asyncCfg{policy: pol, prefill: 0, refLevels: []string{"INFO~ERROR", "ERROR"}, producers: []string{"NF", "EN"}}, "qt", 2, 3)
 	}
 	// a second life of the same logger object (Start, Stop, Start, Stop): conservation and order over both lives
 	for _, pol := range pols {
